@@ -437,7 +437,7 @@ def r_rule(sp, r):
         if extra:
             body = body[:-1] + (sp.gap() + ';' + sp.gap() if decls and not body[:-1].rstrip().endswith(';') else sp.gap()) + \
                 sp.gap().join(extra) + sp.gap() + '}'
-        # the pseudo-page name is case-insensitive in CSS (known finding C02-page-pseudo-case: not in cssutils)
+        # the pseudo-page name is case-insensitive
         return sp.case('@page') + ((sp.gap(need=True) + ':' + sp.case(pseudo)) if pseudo else '') + sp.gap() + body
     if k == 'fontface':
         return sp.case('@font-face') + sp.gap() + r_decls(sp, r[1])
